@@ -4,7 +4,7 @@ from ..expr import strip_bb, show
 from ..facts import Inconclusive, AnchorError
 from ..flow import fields_only
 from . import tables
-from .common import where, short, ret_err_sites, err_variant
+from .common import where, short, ret_err_sites, err_variant, tested_on_path, mentions_call_at
 
 LEVEL = "other"
 EXPLANATION = (
@@ -141,98 +141,135 @@ def _try_inner(e):
 
 
 def five_fields(ctx, cfg):
+    """decided on the (normalised) MIR of NoiseParams::from_str, so that helper extraction / `?` vs `match` spellings
+    do not matter: which `next()` call of the '_' split each `parse::<T>()` consumes, in which order, what reaches
+    NoiseParams::new, and which exits report too few / too many fields"""
+    from ..expr import strip_bb
+    from .common import find_call, ret_ok_sites
     F = ctx.facts[cfg]
-    cands = [b for p, b in F.bodies.items() if b.get("name") == "from_str" and (b.get("self_ty") or "").endswith("params::NoiseParams") and "hir" in b]
+    cands = [p for p, b in F.bodies.items() if b.get("name") == "from_str" and (b.get("self_ty") or "").endswith("params::NoiseParams") and "mir" in b]
     if len(cands) != 1:
         raise AnchorError("NoiseParams::from_str not found uniquely")
-    body = cands[0]
-    w = tables.where_body(body)
-    v = body["hir"]["value"]
-    # let mut split = s.split('_')
+    fn = F.fn(cands[0])
+    w = where(fn)
+    G = ctx.guards(cfg, fn)
+    R = G.R
+    E = ctx.eff(cfg)
+    pts = E.pts[fn.path]
+
+    def is_s(e):
+        e = strip_bb(e)
+        if e == ("arg", 1):
+            return True
+        ps = expr_paths_of(e)
+        return bool(ps) and all(r == ("ext", 1) and not fields_only(pr) for r, pr in ps)
+
+    # split on '_'
+    splits = [(bi, t) for bi, t in fn.calls() if (t["callee"].get("def") or "").endswith("str::<impl str>::split")]
     split_ok = False
-    split_name = None
-    for e in hir.walk(v):
-        pass
-    blk = v
-    while blk.get("k") == "block" and not blk.get("stmts") and "expr" in blk:
-        blk = blk["expr"]
-    stmts = blk.get("stmts", []) if blk.get("k") == "block" else []
-    for st in stmts:
-        if st.get("k") == "let" and "init" in st:
-            init = hir.strip(st["init"])
-            if init.get("k") == "mcall" and init["name"] == "split" and hir.res_local(init["recv"]) == "s":
-                a = hir.strip(init["args"][0])
-                if a.get("k") == "lit" and a.get("char") == "_":
-                    alts = hir.pat_alts(st["pat"])
-                    if alts and alts[0][0] == "bind":
-                        split_name = alts[0][1]
-                        split_ok = True
+    split_local = None
+    if len(splits) == 1:
+        bi, t = splits[0]
+        sep = t["args"][1]
+        split_ok = is_s(R.op(t["args"][0])) and sep.get("k") == "const" and sep.get("val") == ord("_") and not t["dest"]["proj"]
+        split_local = t["dest"]["local"]
     ctx.ob("five-fields", "split", split_ok, "the name is split on '_'" if split_ok else "NoiseParams::from_str does not split its input on '_'", w, cfg)
     if not split_ok:
         return
-    # the NoiseParams::new(...) call
-    calls = [e for e in hir.walk(v) if e.get("k") == "call" and (hir.res_def(e["f"]) or "").endswith("NoiseParams::new")]
-    ok_new = len(calls) == 1
-    ctx.ob("five-fields", "ctor", ok_new, "the parsed value is built by one NoiseParams::new call" if ok_new else "NoiseParams::new call not found uniquely (%d)" % len(calls), w, cfg)
+    # every consumer of the split iterator, in dominance order
+    nexts = []
+    other_consumers = []
+    for bi, t in fn.calls():
+        if not t["args"]:
+            continue
+        aty = E._op_ty(fn, t["args"][0])
+        v = pts._val_pts(t["args"][0]) or set()
+        if aty is not None and aty["k"] in ("refmut", "ref") and (aty.get("inner") == fn.locals[split_local]["ty"] or F.types[aty["inner"]]["k"] in ("param", "opaque", "alias")) and any(r == ("loc", split_local) and not pr for r, pr in v):
+            d = t["callee"].get("def") or ""
+            if d.endswith("iter::Iterator::next"):
+                nexts.append((bi, t))
+            elif not d.endswith("ops::Deref::deref") and not d.endswith("DerefMut::deref_mut"):
+                other_consumers.append(d)
+    nexts.sort(key=lambda x: len(fn.dominators().get(x[0], ())))
+    chain_ok = all(fn.dominates(nexts[i][0], nexts[i + 1][0]) for i in range(len(nexts) - 1))
+    # the constructor call
+    ctors = [(bi, t) for bi, t in fn.calls() if (t["callee"].get("def") or "").endswith("NoiseParams::new")]
+    ok_new = len(ctors) == 1
+    ctx.ob("five-fields", "ctor", ok_new, "the parsed value is built by one NoiseParams::new call" if ok_new else "NoiseParams::new call not found uniquely (%d)" % len(ctors), w, cfg)
     if not ok_new:
         return
-    call = calls[0]
-    args = call["args"]
-    a0 = hir.strip(args[0])
-    ok_name = a0.get("k") == "mcall" and a0["name"] in ("to_owned", "to_string", "into") and hir.res_local(a0["recv"]) == "s"
-    if not ok_name and a0.get("k") == "call":
-        ok_name = any(hir.res_local(x) == "s" for x in a0["args"]) and (hir.res_def(a0["f"]) or "").endswith(("String::from", "From::from", "ToOwned::to_owned"))
-    ctx.ob("five-fields", "name-verbatim", ok_name, "name = s.to_owned(): the original string is preserved verbatim" if ok_name else "the stored name is not the unmodified input string", w, cfg)
-    # fields 1..5
-    nexts_total = 0
+    cb, ct = ctors[0]
+    args = ct["args"]
+    a0 = strip_bb(R.op(args[0]))
+    ok_name = a0[0] == "call" and (a0[1] or "").endswith(("ToOwned::to_owned", "String::from", "From::from", "Into::into", "ToString::to_string", "str>::to_owned", "str>::to_string")) \
+        and len(a0[3]) == 1 and is_s(a0[3][0])
+    ctx.ob("five-fields", "name-verbatim", ok_name, "name = s.to_owned(): the original string is preserved verbatim" if ok_name else "the stored name is not the unmodified input string", where(fn, ct), cfg)
+    errs = ret_err_sites(fn, R)
+    used = set()
     for i, a in enumerate(args[1:], start=1):
-        ty = hir.ty_s(F, a) or ""
-        inner = _try_inner(a)
-        ok = False
-        why = "not `<..>.parse()?`"
-        if inner is not None and inner.get("k") == "mcall" and inner["name"] == "parse":
-            r = _try_inner(inner["recv"])
-            if r is not None and r.get("k") == "mcall" and r["name"] == "ok_or":
-                src = hir.strip(r["recv"])
-                errv = hir.strip(r["args"][0])
-                errd = hir.res_def(errv) or ""
-                if src.get("k") == "mcall" and src["name"] == "next" and hir.res_local(src["recv"]) == split_name:
-                    ok = errd.replace("::{constructor#0}", "").endswith("PatternProblem::TooFewParameters")
-                    why = "missing-field error is %s" % errd
-                else:
-                    why = "field is not taken from %s.next()" % split_name
-        nn = sum(1 for e in hir.walk(a) if e.get("k") == "mcall" and e["name"] in ("next", "nth", "last", "next_back", "skip", "peek") and hir.res_local(e["recv"]) == split_name)
-        nexts_total += nn
-        ok = ok and nn == 1
         want_ty = FIELD_TYPES[i - 1] if i - 1 < len(FIELD_TYPES) else "?"
-        ok_ty = ty.split("::")[-1] == want_ty
+        e = R.op(a)
+        pc = find_call(e, ("str::<impl str>::parse",))
+        ok = False
+        ty = "?"
+        why = "argument %d of NoiseParams::new is not the result of a parse()" % i
+        if pc is not None:
+            pt = fn.blocks[pc[4]]["term"] if len(pc) > 4 and isinstance(pc[4], int) else None
+            ty = ((pt or {}).get("callee", {}).get("args") or "").strip("[]").split("::")[-1]
+            nc = find_call(pc[3][0], ("iter::Iterator::next",)) if pc[3] else None
+            why = "the string parsed for field %d does not come from split.next()" % i
+            if nc is not None and len(nc) > 4:
+                idx = [k for k, (nb, nt) in enumerate(nexts) if nb == nc[4]]
+                if idx and idx[0] == i - 1 and idx[0] not in used:
+                    used.add(idx[0])
+                    # running out of fields here is Pattern(TooFewParameters)
+                    nb = nexts[idx[0]][0]
+                    few = False
+                    for (eb, v, st) in errs:
+                        if v == ("Pattern", "TooFewParameters") and fn.dominates(nb, eb):
+                            if tested_on_path(fn, G, R, eb, nb):
+                                few = True
+                    ok = few and chain_ok
+                    why = "a missing field %d is not reported as Pattern(TooFewParameters)" % i if not few else "split.next() calls are not in one chain"
+                elif idx:
+                    why = "field %d is taken from the %s split.next() call" % (i, ["1st", "2nd", "3rd", "4th", "5th", "6th", "7th"][min(idx[0], 6)])
+        ok_ty = ty == want_ty
         ctx.ob("five-fields", "field-%d" % i, ok and ok_ty,
-               "field %d (%s) = split.next().ok_or(TooFewParameters)?.parse()?" % (i, want_ty) if ok and ok_ty else "field %d: %s (type %s, expected %s)" % (i, why, ty, want_ty), w, cfg)
-    ctx.ob("five-fields", "count", len(args) == 6, "exactly five fields are parsed" if len(args) == 6 else "%d fields are parsed" % (len(args) - 1), w, cfg)
+               "field %d (%s) = split.next() [None => TooFewParameters] .parse()?" % (i, want_ty) if ok and ok_ty else "field %d: %s (type %s, expected %s)" % (i, why, ty, want_ty), where(fn, ct), cfg)
+    cnt_ok = len(args) == 6 and len(nexts) == 6 and not other_consumers
+    ctx.ob("five-fields", "count", cnt_ok, "exactly five fields are parsed (and a sixth next() only tests for excess)" if cnt_ok
+           else "%d fields are parsed, split iterator advanced %d times%s" % (len(args) - 1, len(nexts), (", also consumed by %s" % other_consumers[0]) if other_consumers else ""), w, cfg)
     # NoiseParams::new stores its parameters in the same-named fields
     nb = hir.find_body(F, "params::NoiseParams::new")
     st = [e for e in hir.walk(nb["hir"]["value"]) if e.get("k") == "struct"]
     ok_store = len(st) == 1 and all(hir.res_local(f["e"]) == f["name"] for f in st[0]["fields"])
     ctx.ob("five-fields", "new-stores", ok_store, "NoiseParams::new stores each argument in the field of the same name" if ok_store else "NoiseParams::new permutes or drops its arguments", tables.where_body(nb), cfg)
-    # too many parameters: MIR guard
-    fn = F.fn(body["path"])
-    G = ctx.guards(cfg, fn)
-    errs = [(b, s) for (b, v2, s) in ret_err_sites(fn, G.R) if v2 == ("Pattern", "TooManyParameters")]
-    ok_many = False
-    for (b, s) in errs:
-        for f in G.at_entry(b):
-            if f[0] == "bool" and f[2] is True and f[1][0] == "call" and (f[1][1] or "").endswith("Option::<T>::is_some"):
-                inner = f[1][3][0]
-                if inner[0] == "ref" or inner[0] == "call" or inner[0] == "local":
-                    ok_many = True
-    from .common import ret_ok_sites
-    oks = ret_ok_sites(fn)
-    ok_conv = True
-    for (b, s) in oks:
-        if not any(f[0] == "bool" and f[2] is False and f[1][0] == "call" and (f[1][1] or "").endswith("Option::<T>::is_some") for f in G.at_entry(b)):
-            ok_conv = False
-    ctx.ob("five-fields", "too-many", ok_many and ok_conv and bool(oks),
+    # too many parameters: the sixth next() must be None for Ok; Some => Pattern(TooManyParameters)
+    ok_many = ok_conv = False
+    if len(nexts) >= 6:
+        lb = nexts[5][0]
+
+        def some_fact(f, truth):
+            if f[0] == "hist" and f[2] == lb:
+                return (f[1] == "err") is truth
+            # is_some(next6) == truth, or the discriminant of next6 (0 = None, reported as 'ok'; 1 = Some, as 'err')
+            if f[0] == "bool" and f[1][0] == "call" and (f[1][1] or "").endswith("Option::<T>::is_some") and mentions_call_at(f[1], lb, fn, R):
+                return f[2] is truth
+            if f[0] == "bool" and f[1][0] == "call" and (f[1][1] or "").endswith("Option::<T>::is_none") and mentions_call_at(f[1], lb, fn, R):
+                return f[2] is (not truth)
+            if f[0] in ("ok", "err") and mentions_call_at(f[1], lb, fn, R):
+                return (f[0] == "err") is truth
+            return False
+        ok_many = any(v == ("Pattern", "TooManyParameters") and any(some_fact(f, True) for f in G.at_entry(eb)) for (eb, v, st) in errs)
+        oks = ret_ok_sites(fn)
+        ok_conv = bool(oks) and all(any(some_fact(f, False) for f in G.at_entry(b)) for (b, st) in oks)
+    ctx.ob("five-fields", "too-many", ok_many and ok_conv,
            "a sixth field yields Pattern(TooManyParameters); Ok only when split.next() is None" if ok_many and ok_conv else "the too-many-parameters check is missing or does not gate the Ok return", w, cfg)
+
+
+def expr_paths_of(e):
+    from ..guards import expr_paths
+    return expr_paths(e)
 
 
 def five_fields_hfs(ctx, cfg):
